@@ -150,14 +150,13 @@ Lemma parse_descs_bytes_g fs ds : forall rs rest,
 Proof.
   induction ds as [|d ds IH]; intros rs rest Hc [Hl Hf]; [reflexivity|].
   destruct rs as [|[r1 r2] rs]; [discriminate Hl|]. inversion Hf as [|? ? [H1 H2] Hf']; subst.
-  inversion Hc as [|? ? (Hok & Ht & Hk & Ha) Hc']; subst. cbn [fst snd] in *.
+  inversion Hc as [|? ? (Hok & Ht & (Hk1 & Hk2) & (Ha1 & Ha2)) Hc']; subst. cbn [fst snd] in *.
   cbn [length parse_descs descs_bytes_g]. rewrite <- app_assoc.
   rewrite firstn_app_exact by (apply desc_length; auto).
   rewrite skipn_app_exact by (apply desc_length; auto).
   rewrite <- (app_nil_r (desc_bytes d r1 r2)), parse_desc_bytes by auto.
   replace (kas_num_types <=? d_type d) with false by (symmetry; apply Z.leb_gt; lia).
-  replace (fs <? w64 (d_ks d + d_kl d)) with false by (symmetry; apply Z.ltb_ge; lia).
-  replace (fs <? w64 (d_as d + d_al d * type_size (d_type d))) with false by (symmetry; apply Z.ltb_ge; lia).
+  rewrite (bound_false _ _ _ _ Hk1 Hk2), (bound_false _ _ _ _ Ha1 Ha2).
   rewrite IH by (auto; split; auto). reflexivity.
 Qed.
 
@@ -234,25 +233,16 @@ Proof.
   split; [vm_compute; discriminate | vm_compute; reflexivity].
 Qed.
 
-(* F15: "altering a descriptor's array_len makes load fail" is false: the top byte of the
-   array_len of populations/metadata_offset (item 45, a uint32 array of one entry) set to 0x40
-   adds 2^62 entries; 2^62 * 4 wraps to 0 modulo 2^64, every kastore check passes, and the
-   table layer then reads 2^62 + 1 offsets out of a 4-byte block: out-of-bounds (C: SIGSEGV) *)
-Theorem array_len_wrap_refuted :
-  exists p v, p = 64 + 64 * 45 + 39 /\ byte_ok v /\ nth (Z.to_nat p) f0 0 <> v /\
-    is_ok (kas_open true (subst_byte f0 p v)) = true /\
-    load_verdict false false (subst_byte f0 p v) = V_OOB.
-Proof.
-  exists (64 + 64 * 45 + 39), 64. split; [reflexivity|]. split; [unfold byte_ok; lia|].
-  split; [vm_compute; discriminate|]. split; vm_compute; reflexivity.
-Qed.
-
-(* the same at the container level, on a one-item store *)
-Theorem array_len_wrap_refuted_kas :
-  let f := kas_encode [mk_item [97] 4 1 [1; 2; 3; 4]] in
-  exists v, byte_ok v /\ nth (64 + 39) f 0 <> v /\
-    is_ok (kas_open true (subst_byte f (64 + 39) v)) = true /\ kas_decode (subst_byte f (64 + 39) v) = OOB.
-Proof. cbv zeta. exists 64. split; [unfold byte_ok; lia|]. split; [vm_compute; discriminate|]. split; vm_compute; reflexivity. Qed.
+(* F15 (fixed in fd85063): the top byte of the array_len of populations/metadata_offset (item 45,
+   a uint32 array of one entry) set to 0x40 adds 2^62 entries; with the wrapping bound check of
+   the pinned code 2^62 * 4 wrapped to 0 and the table layer read out of bounds (SIGSEGV).  The
+   repaired, non-wrapping check rejects it; the general statement is [array_len_rejected]. *)
+Example array_len_wrap_now_rejected :
+  let p := 64 + 64 * 45 + 39 in
+  nth (Z.to_nat p) f0 0 = 0 /\ kas_open true (subst_byte f0 p 64) = Err E_FORMAT /\
+  load_verdict false false (subst_byte f0 p 64) = T_KAS /\
+  (let f := kas_encode [mk_item [97] 4 1 [1; 2; 3; 4]] in kas_decode (subst_byte f (64 + 39) 64) = Err E_FORMAT).
+Proof. vm_compute. repeat split; reflexivity. Qed.
 
 (* F16: array_len of the 5-byte time_units array (item 58) set to 4: the aligned end of the
    array is unchanged, the file loads, with time_units "tick" *)
@@ -501,13 +491,195 @@ Proof.
   symmetry. apply Z.eqb_neq. unfold koff0. rewrite hs64, ds64. lia.
 Qed.
 
-(* F19: the data bytes of sequence_length (item 51, array at 5120..5127) altered to a NaN
-   (7FF8 0000 0000 0000): `L[0] <= 0.0` is false for a NaN, the file loads with that length *)
-Theorem nan_sequence_length_refuted :
+(* F19 (fixed in cfb2bb6): the data bytes of sequence_length (item 51, array at 5120..5127) altered
+   to a NaN (7FF8 0000 0000 0000).  The pinned test `L[0] <= 0.0` was false for a NaN
+   ([double_le_zero_pinned], historical record); the repaired `!(L[0] > 0.0)` rejects it. *)
+Theorem nan_sequence_length_pinned_refuted :
+  double_le_zero_pinned [0; 0; 0; 0; 0; 0; 248; 127] = false.
+Proof. vm_compute. reflexivity. Qed.
+
+Theorem nan_sequence_length_rejected :
   slice f0 5120 8 = [0; 0; 0; 0; 0; 0; 240; 63] /\
-  double_le_zero [0; 0; 0; 0; 0; 0; 248; 127] = false /\
-  match tsk_load_bytes false false (subst_many f0 [(5126, [248; 127])]) with
-  | Ok (tc', []) => zlist_eqb (tc_L tc') [0; 0; 0; 0; 0; 0; 248; 127]
-  | _ => false
-  end = true.
+  double_not_positive [0; 0; 0; 0; 0; 0; 248; 127] = true /\
+  load_verdict false false (subst_many f0 [(5126, [248; 127])]) = T_BAD_SEQUENCE_LENGTH /\
+  load_verdict false false f0 = V_LOADED.
 Proof. vm_compute. repeat split; reflexivity. Qed.
+
+(* ---- (h) key_len and array_len under the repaired (non-wrapping) bound checks ---- *)
+Definition bounds (fs : Z) (d : rdesc) : Prop :=
+  d_kl d <= fs /\ d_ks d <= fs - d_kl d /\ d_as d <= fs /\ d_al d <= (fs - d_as d) / type_size (d_type d).
+
+Lemma parse_descs_ok_bounds fs n : forall buf ds, parse_descs fs n buf = Ok ds -> Forall (bounds fs) ds.
+Proof.
+  induction n; intros buf ds; cbn [parse_descs].
+  - intros H. inversion H. constructor.
+  - set (d := parse_desc (firstn 64 buf)).
+    destruct (kas_num_types <=? d_type d); [discriminate|].
+    destruct ((fs <? d_kl d) || (fs - d_kl d <? d_ks d)) eqn:E1; [discriminate|].
+    destruct ((fs <? d_as d) || ((fs - d_as d) / type_size (d_type d) <? d_al d)) eqn:E2; [discriminate|].
+    destruct (parse_descs fs n (skipn 64 buf)) eqn:E3; try discriminate.
+    intros H. inversion H; subst. constructor; [|eapply IHn; eauto].
+    apply orb_false_iff in E1 as [A1 A2]. apply orb_false_iff in E2 as [B1 B2].
+    apply Z.ltb_ge in A1, A2, B1, B2. unfold bounds. tauto.
+Qed.
+
+Definition set_kl (d : rdesc) (v : Z) := mk_rdesc (d_type d) (d_ks d) v (d_as d) (d_al d).
+Definition set_al (d : rdesc) (v : Z) := mk_rdesc (d_type d) (d_ks d) (d_kl d) (d_as d) v.
+
+(* like descriptor_field_rejected, but the packing argument may use the per-descriptor bounds
+   (they hold whenever the first loop of kastore_read_descriptors did not already reject) *)
+Lemma descriptor_field_rejected_b its pre it post (f : rdesc -> rdesc) y :
+  items_ok its -> its = pre ++ it :: post ->
+  (forall d, rdesc_ok d -> rdesc_ok (f d)) ->
+  (Forall (bounds (kw_fs its)) (altered_descs its pre it post f) ->
+   check_keys (kw_k its) (altered_descs its pre it post f) = None \/
+   exists o, check_keys (kw_k its) (altered_descs its pre it post f) = Some o
+             /\ (check_arrays o (altered_descs its pre it post f) = None \/
+                 exists o2, check_arrays o (altered_descs its pre it post f) = Some o2 /\ o2 <> kw_fs its)) ->
+  exists e, kas_open true (kw_header its ++ descs_bytes (altered_descs its pre it post f) ++ y) = Err e.
+Proof.
+  intros Hok Hits Hf Hchk.
+  assert (Hne : its <> []) by (rewrite Hits; destruct pre; discriminate).
+  pose proof (kw_facts its Hok Hne) as (Hn & Hk & Ha & Hal & Hfs & Hlt & Hkeys).
+  destruct Hok as (Hall & _ & _).
+  assert (G3 : kw_k its + keys_len its <= kw_fs its) by (fold (kw_a its); lia).
+  assert (G4 : layout_end (kw_a its) its <= kw_fs its) by (fold (kw_fs its); lia).
+  destruct (layout_props its (kw_k its) (kw_a its) (kw_fs its) Hall ltac:(lia) ltac:(lia) G3 G4 Hlt) as (Hdc & _ & _).
+  assert (Hlen : length (altered_descs its pre it post f) = length its).
+  { unfold altered_descs. rewrite app_length. cbn [length]. rewrite !layout_length, Hits, app_length. reflexivity. }
+  assert (Hrok : Forall rdesc_ok (altered_descs its pre it post f)).
+  { rewrite <- (altered_descs_id its pre it post Hits) in Hdc. unfold altered_descs in *.
+    apply Forall_app in Hdc as [H1 H2]. inversion H2 as [|? ? H3 H4]; subst.
+    apply Forall_app. split; [eapply Forall_impl; [|exact H1]; apply desc_checks_ok|].
+    constructor; [apply Hf; eapply desc_checks_ok; eauto | eapply Forall_impl; [|exact H4]; apply desc_checks_ok]. }
+  unfold kas_open, kw_header.
+  rewrite read_header_ok by (try apply zeros_length; lia).
+  replace (kw_n its =? 0) with false by (symmetry; apply Z.eqb_neq; lia).
+  unfold read_descriptors. rewrite hs64, ds64.
+  replace (kw_fs its <? kw_n its * 64 + 64) with false by (symmetry; apply Z.ltb_ge; lia).
+  rewrite (take_exact (kw_n its * 64) (descs_bytes (altered_descs its pre it post f))).
+  2:{ unfold zlen. rewrite descs_bytes_length, Hlen. unfold kw_n, zlen. lia. }
+  replace (Z.to_nat (kw_n its)) with (length (altered_descs its pre it post f))
+    by (rewrite Hlen; unfold kw_n, zlen; rewrite Nat2Z.id; reflexivity).
+  destruct (parse_descs_shape (kw_fs its) (length (altered_descs its pre it post f))
+              (descs_bytes (altered_descs its pre it post f))) as [[ds' E]|[e E]]; rewrite E; [|eauto].
+  pose proof (parse_descs_ok_bounds _ _ _ _ E) as Hb.
+  rewrite <- (app_nil_r (descs_bytes _)) in E. apply parse_descs_values in E; auto. subst ds'.
+  change (koff0 (kw_n its)) with (kw_k its).
+  destruct (Hchk Hb) as [-> | (o & -> & [-> | (o2 & -> & Ho2)])]; eauto.
+  replace (o2 =? kw_fs its) with false by (symmetry; apply Z.eqb_neq; auto). eauto.
+Qed.
+
+Lemma altered_keys_pass its pre it post f : items_ok its -> its = pre ++ it :: post ->
+  (forall d, d_ks (f d) = d_ks d /\ d_kl (f d) = d_kl d) ->
+  check_keys (kw_k its) (altered_descs its pre it post f) = Some (kw_a its).
+Proof.
+  intros Hok Hits Hf.
+  assert (Hne : its <> []) by (rewrite Hits; destruct pre; discriminate).
+  pose proof (kw_facts its Hok Hne) as (Hn & Hk & Ha & Hal & Hfs & Hlt & Hkeys).
+  destruct (prefix_checks its pre it post Hok Hits) as (Hck & _).
+  destruct Hok as (Hall & _ & _).
+  assert (G3 : kw_k its + keys_len its <= kw_fs its) by (fold (kw_a its); lia).
+  assert (G4 : layout_end (kw_a its) its <= kw_fs its) by (fold (kw_fs its); lia).
+  destruct (layout_props its (kw_k its) (kw_a its) (kw_fs its) Hall ltac:(lia) ltac:(lia) G3 G4 Hlt) as (_ & Hck2 & _).
+  rewrite <- (altered_descs_id its pre it post Hits) in Hck2.
+  unfold altered_descs in *. rewrite check_keys_app in Hck2 |- *. rewrite Hck in Hck2 |- *.
+  cbn [check_keys] in Hck2 |- *. destruct (Hf (mk_rdesc (itype it) (kw_k its + keys_len pre) (zlen (ikey it))
+                                               (align8 (layout_end (kw_a its) pre)) (ilen it))) as [E1 E2].
+  rewrite E1, E2. exact Hck2.
+Qed.
+
+Lemma kw_fs_split its pre it post : its = pre ++ it :: post ->
+  kw_fs its = layout_end (align8 (layout_end (kw_a its) pre) + isize it) post.
+Proof. intros Hits. unfold kw_fs. rewrite Hits at 2. rewrite layout_end_app. reflexivity. Qed.
+
+(* array_len: every other value is rejected, except inside the alignment slack (finding F16):
+   the end of the array, aligned up, must differ (for the last array: the end itself) *)
+Theorem array_len_rejected its pre it post v y :
+  items_ok its -> its = pre ++ it :: post -> kw_fs its + 8 <= two64 -> 0 <= v < two64 ->
+  (let a := align8 (layout_end (kw_a its) pre) in
+   match post with
+   | [] => a + v * type_size (itype it) <> a + isize it
+   | _ => align8 (a + v * type_size (itype it)) <> align8 (a + isize it)
+   end) ->
+  exists e, kas_open true (kw_header its ++ descs_bytes (altered_descs its pre it post (fun d => set_al d v)) ++ y) = Err e.
+Proof.
+  intros Hok Hits Hbig Hv Hdiff. cbv zeta in Hdiff.
+  destruct (prefix_checks its pre it post Hok Hits) as (_ & Hca & Hk1 & Ha1 & Hge).
+  apply descriptor_field_rejected_b; auto.
+  - intros d (H1 & H2 & H3 & H4 & H5). unfold rdesc_ok, set_al. cbn. tauto.
+  - intros Hb. right. exists (kw_a its). split.
+    + apply altered_keys_pass; auto; try (intros d; split; reflexivity).
+    + unfold altered_descs in *. apply Forall_app in Hb as [_ Hb]. apply Forall_inv in Hb as Hbd.
+      destruct Hbd as (_ & _ & Hb3 & Hb4). cbn [set_al d_as d_al d_type] in Hb3, Hb4.
+      set (a := align8 (layout_end (kw_a its) pre)) in *.
+      assert (Hts : 1 <= type_size (itype it) <= 8).
+      { destruct Hok as (Hall & _). rewrite Hits in Hall. apply Forall_app in Hall as [_ Hall].
+        apply Forall_inv in Hall. destruct Hall as (Ht & _). apply type_size_pos; auto. }
+      assert (Hend : a + v * type_size (itype it) <= kw_fs its).
+      { pose proof (Z.mul_div_le (kw_fs its - a) (type_size (itype it)) ltac:(lia)). nia. }
+      rewrite check_arrays_app, Hca. cbn [check_arrays set_al d_as d_al d_type]. fold a.
+      rewrite (w64_small a) by lia. rewrite Z.eqb_refl.
+      rewrite (w64_small (a + v * type_size (itype it))) by lia.
+      destruct post as [|it2 r2].
+      * right. cbn [layout check_arrays]. eexists. split; [reflexivity|].
+        rewrite (kw_fs_split its pre it [] Hits). cbn [layout_end]. fold a. exact Hdiff.
+      * left. cbn [layout check_arrays d_as].
+        pose proof (align8_spec (a + v * type_size (itype it)) ltac:(lia)) as [Hx _].
+        rewrite w64_small by lia.
+        replace (align8 (a + isize it) =? align8 (a + v * type_size (itype it))) with false; [reflexivity|].
+        symmetry. apply Z.eqb_neq. intros E. apply Hdiff. symmetry. exact E.
+Qed.
+
+(* key_len: every other value is rejected; for the LAST key only outside the padding before the
+   first array *)
+Theorem key_len_rejected its pre it post v y :
+  items_ok its -> its = pre ++ it :: post -> kw_fs its + 8 <= two64 -> 0 <= v < two64 ->
+  v <> zlen (ikey it) ->
+  (post = [] -> align8 (kw_k its + keys_len pre + v) <> align8 (kw_a its)) ->
+  exists e, kas_open true (kw_header its ++ descs_bytes (altered_descs its pre it post (fun d => set_kl d v)) ++ y) = Err e.
+Proof.
+  intros Hok Hits Hbig Hv Hne Hlast.
+  destruct (prefix_checks its pre it post Hok Hits) as (Hck & _ & Hk1 & Ha1 & Hge).
+  assert (Hne' : its <> []) by (rewrite Hits; destruct pre; discriminate).
+  pose proof (kw_facts its Hok Hne') as (Hn & Hk & Ha & Hal & Hfs & Hlt & Hkeys).
+  apply descriptor_field_rejected_b; auto.
+  - intros d (H1 & H2 & H3 & H4 & H5). unfold rdesc_ok, set_kl. cbn. tauto.
+  - intros Hb. unfold altered_descs in *.
+    apply Forall_app in Hb as [_ Hb]. apply Forall_inv in Hb as Hbd.
+    destruct Hbd as (Hb1 & Hb2 & _). cbn [set_kl d_ks d_kl] in Hb1, Hb2.
+    rewrite check_keys_app, Hck. cbn [check_keys set_kl d_ks d_kl]. rewrite Z.eqb_refl.
+    rewrite (w64_small (kw_k its + keys_len pre + v)) by lia.
+    destruct post as [|it2 r2].
+    + right. cbn [layout check_keys]. eexists. split; [reflexivity|]. left.
+      specialize (Hlast eq_refl).
+      pose proof (align8_spec (kw_k its + keys_len pre + v) ltac:(lia)) as [Hx _].
+      (* the first descriptor of the list carries the first array start = align8 (kw_a its) *)
+      destruct pre as [|p0 pre'].
+      * cbn [layout app check_arrays set_kl d_as layout_end].
+        rewrite w64_small by lia.
+        replace (align8 (kw_a its) =? align8 (kw_k its + keys_len [] + v)) with false; [reflexivity|].
+        symmetry. apply Z.eqb_neq. intros E. apply Hlast. symmetry. exact E.
+      * cbn [layout app check_arrays d_as].
+        rewrite w64_small by lia.
+        replace (align8 (kw_a its) =? align8 (kw_k its + keys_len (p0 :: pre') + v)) with false; [reflexivity|].
+        symmetry. apply Z.eqb_neq. intros E. apply Hlast. symmetry. exact E.
+    + left. cbn [layout check_keys d_ks].
+      replace (kw_k its + keys_len pre + zlen (ikey it) =? kw_k its + keys_len pre + v) with false; [reflexivity|].
+      symmetry. apply Z.eqb_neq. lia.
+Qed.
+
+Example array_len_rejected_ex :
+  let its := sort_items [mk_item [98] 4 2 [1; 0; 0; 0; 255; 255; 255; 255]; mk_item [97; 47; 120] 1 3 [0; 255; 7]] in
+  exists pre it post, its = pre ++ it :: post /\ post <> [] /\ kw_fs its + 8 <= two64 /\
+    (* 3 bytes at an aligned start: lengths 1..8 share the aligned end (slack), 0 and 9.. do not *)
+    forallb (fun v => negb (is_ok (kas_open true (kw_header its ++ descs_bytes (altered_descs its pre it post (fun d => set_al d v))
+                                                   ++ kw_keys its ++ blocks (align8 (kw_a its)) its))))
+            [0; 9; 16; 4611686018427387907; 18446744073709551615] = true
+    /\ forallb (fun v => is_ok (kas_open true (kw_header its ++ descs_bytes (altered_descs its pre it post (fun d => set_al d v))
+                                                   ++ kw_keys its ++ blocks (align8 (kw_a its)) its)))
+            [1; 2; 3; 8] = true.
+Proof.
+  cbv zeta. eexists [], _, [_]. split; [vm_compute; reflexivity|]. split; [discriminate|]. vm_compute.
+  split; [discriminate|]. split; reflexivity.
+Qed.
